@@ -535,6 +535,22 @@ def inject_server_table_overlay(scratch):
         fh.write("\n#[cfg(%s)]\n#[path = \"verif_overlay_sift.rs\"]\nmod verif_overlay_sift;\n" % cfg)
 
 
+def inject_exec_overlay(scratch):
+    """Handler side of C11: harness as a child module of `server` (InFlightRequest / ResponseGuard
+    fields are private to it).  Under cfg(kani) ONLY, tokio's mpsc in server.rs (response buffer)
+    and cancellations.rs (cancellation queue) is replaced by the waker-less array model; the native
+    replay of a counterexample runs against the real tokio channels."""
+    _common_inject(scratch, "any(kani, verif_replay)")
+    tsrc = os.path.join(scratch.repo, "tarpc", "src")
+    shutil.copy(os.path.join(VERIF, "overlay", "tarpc_overlay_exec.rs"), os.path.join(tsrc, "server", "verif_overlay_exec.rs"))
+    _swap(os.path.join(tsrc, "server.rs"), [("use ::tokio::sync::mpsc;", "#[cfg(not(kani))]\nuse ::tokio::sync::mpsc;\n#[cfg(kani)]\nuse crate::verif_env::mpsc;")])
+    cf = os.path.join(tsrc, "cancellations.rs")
+    if "crate::verif_env::mpsc" not in open(cf).read():
+        _swap(cf, [("use tokio::sync::mpsc;", "#[cfg(not(kani))]\nuse tokio::sync::mpsc;\n#[cfg(kani)]\nuse crate::verif_env::mpsc;")])
+    with open(os.path.join(tsrc, "server.rs"), "a") as fh:
+        fh.write("\n#[cfg(any(kani, verif_replay))]\n#[path = \"server/verif_overlay_exec.rs\"]\nmod verif_overlay_exec;\n")
+
+
 def inject_server_channel_overlay(scratch):
     """BaseChannel: server table swaps + tokio mpsc model in cancellations.rs + harness as a child of `server`."""
     inject_server_table_overlay(scratch)
@@ -630,5 +646,5 @@ def replay_test(scratch, test, env_extra, names=None, timeout_s=1200, release=Fa
     env["CARGO_TARGET_DIR"] = os.path.join(scratch.target, "replay-native")
     cmd = ["cargo", "test", "--offline", "--no-fail-fast", "--test", test] + (["--release"] if release else []) + ["--"] + (names or []) + ["--nocapture", "--test-threads", "1"]
     rc, out, _ = run(cmd, cwd=os.path.join(scratch.root, "replay"), env=env, timeout=timeout_s)
-    keep = [l for l in out.splitlines() if re.search(r"^test |panicked at|MISMATCH|SERVER|CLIENT|DECODE|test result|error(\[|:)", l)]
+    keep = [l for l in out.splitlines() if re.search(r"^test |panicked at|MISMATCH|SERVER|CLIENT|DECODE|LIMIT=|refused|test result|error(\[|:)", l)]
     return rc == 0, "\n".join(keep[-25:])
